@@ -119,6 +119,22 @@ pub fn scan_fn(f: &str, a: &[&str]) -> Option<String> {
                     6 => { let mut c = 0usize; for j in 0..s.k { c = (c + r.below(4)).min(s.omega); w[hoff + s.omega + j] = c as u8; } let mut v: Vec<u8> = (0..s.omega).map(|_| r.byte()).collect(); v.sort(); for j in 0..s.omega { w[hoff + j] = v[j]; } }
                     _ => {}
                 }
+                if it % 16 >= 8 && it % 8 != 0 {
+                    // well-formed (strictly increasing) index area under the crafted counters, so that the decoder's loops run to their bounds
+                    for j in 0..s.omega { w[hoff + j] = j as u8; }
+                }
+                if it % 16 == 15 {
+                    // increasing counters above omega continuing the increasing run of the index area
+                    for j in 0..s.omega { w[hoff + j] = j as u8; }
+                    let start = s.omega + 1 + r.below(20);
+                    for j in 0..s.k { w[hoff + s.omega + j] = (start + j).min(255) as u8; }
+                }
+                if it % 16 == 7 {
+                    for j in 0..s.omega { w[hoff + j] = j as u8; }
+                    let a = r.below(s.omega + 1); let b = r.below(a + 1);
+                    w[hoff + s.omega] = a as u8; w[hoff + s.omega + 1] = b as u8;      // decreasing pair after a well-formed first polynomial
+                    for j in 2..s.k { w[hoff + s.omega + j] = a as u8; }
+                }
                 let pkv: Vec<u8> = if it % 5 == 4 { (0..s.pk).map(|i| if i < 32 { r.byte() } else { 255 }).collect() } else { pk.clone() };
                 t.add(try_verify(s.verify, &w, &msg, &pkv), || format!("case{}:{}", it % 8, hex(&w)));
             }
